@@ -132,7 +132,7 @@ func showItem(i *gkvlite.Item, wv bool) string {
 	}
 	s := hx(i.Key) + ":" + strconv.Itoa(int(i.Priority))
 	if wv {
-		s += ":" + hx(i.Val)
+		s += ":" + hx(fullVal(i))
 	}
 	return s
 }
@@ -148,7 +148,21 @@ const (
 	cbBeforeWrite
 	cbAfterRead
 	cbKeyCompare // always installed on reopen when any non-default comparator name is used
+	cbChunked    // values live in memory in chunks: Val is the first chunk, the rest hangs off Transient
 )
+
+// chunkTail is what a chunked value keeps in Item.Transient: everything after the first chunk.
+type chunkTail struct{ rest []byte }
+
+const firstChunk = 4
+
+// fullVal is the value of an item as the application sees it.
+func fullVal(i *gkvlite.Item) []byte {
+	if ct, ok := i.Transient.(*chunkTail); ok && ct != nil {
+		return append(append([]byte{}, i.Val...), ct.rest...)
+	}
+	return i.Val
+}
 
 func (w *World) callbacks() gkvlite.StoreCallbacks {
 	cb := gkvlite.StoreCallbacks{}
@@ -204,6 +218,49 @@ func (w *World) callbacks() gkvlite.StoreCallbacks {
 					return err
 				}
 			}
+			return nil
+		}
+	}
+	if w.cfg&cbChunked != 0 {
+		cb.ItemValLength = func(c *gkvlite.Collection, i *gkvlite.Item) int {
+			if ct, ok := i.Transient.(*chunkTail); ok && ct != nil {
+				return len(i.Val) + len(ct.rest)
+			}
+			return len(i.Val)
+		}
+		cb.ItemValWrite = func(c *gkvlite.Collection, i *gkvlite.Item, wr io.WriterAt, offset int64) error {
+			if _, err := wr.WriteAt(i.Val, offset); err != nil {
+				return err
+			}
+			if ct, ok := i.Transient.(*chunkTail); ok && ct != nil {
+				for p := 0; p < len(ct.rest); p += 7 {
+					e := p + 7
+					if e > len(ct.rest) {
+						e = len(ct.rest)
+					}
+					if _, err := wr.WriteAt(ct.rest[p:e], offset+int64(len(i.Val)+p)); err != nil {
+						return err
+					}
+				}
+			}
+			return nil
+		}
+		cb.ItemValRead = func(c *gkvlite.Collection, i *gkvlite.Item, r io.ReaderAt, offset int64, valLength uint32) error {
+			n := int(valLength)
+			if n <= firstChunk {
+				i.Val = make([]byte, n)
+				_, err := r.ReadAt(i.Val, offset)
+				return err
+			}
+			i.Val = make([]byte, firstChunk)
+			if _, err := r.ReadAt(i.Val, offset); err != nil {
+				return err
+			}
+			ct := &chunkTail{rest: make([]byte, n-firstChunk)}
+			if _, err := r.ReadAt(ct.rest, offset+firstChunk); err != nil {
+				return err
+			}
+			i.Transient = ct
 			return nil
 		}
 	}
@@ -360,6 +417,9 @@ func (w *World) exec(t []string) string {
 		v, _ := unhx(t[4])
 		p, _ := strconv.ParseInt(t[5], 10, 64)
 		it := &gkvlite.Item{Key: k, Val: v, Priority: int32(p)}
+		if w.cfg&cbChunked != 0 && len(v) > firstChunk {
+			it.Val, it.Transient = v[:firstChunk:firstChunk], &chunkTail{rest: v[firstChunk:]}
+		}
 		if w.rc != nil {
 			w.rc.userItem(it)
 		}
@@ -548,7 +608,7 @@ func (w *World) exec(t []string) string {
 		v := func(i *gkvlite.Item, depth uint64) bool {
 			s := hx(i.Key) + ":" + strconv.Itoa(int(i.Priority)) + ":" + strconv.FormatUint(depth, 10)
 			if wv {
-				s += ":" + hx(i.Val)
+				s += ":" + hx(fullVal(i))
 			}
 			out = append(out, s)
 			if cnt == pos {
@@ -649,7 +709,7 @@ func (w *World) exec(t []string) string {
 		v := func(i *gkvlite.Item, depth uint64) bool {
 			s := hx(i.Key) + ":" + strconv.Itoa(int(i.Priority)) + ":" + strconv.FormatUint(depth, 10)
 			if wv {
-				s += ":" + hx(i.Val)
+				s += ":" + hx(fullVal(i))
 			}
 			out = append(out, s)
 			cnt++
